@@ -4,7 +4,7 @@ confirms the repository's own tests of the touched packages still pass there (ot
 mutant is one the suite already catches), runs ./check <property> against the copy and requires
 exit 1 (kind "break") or exit 0 (kind "refactor": behaviour-preserving, false-alarm side).
 
-  tools/mutants.py [--only REGEX] [--jobs N] [--tier quick] [--no-suite]
+  tools/mutants.py [--only REGEX] [--jobs N] [--tier quick] [--no-suite] [--file FILE]
 Writes mutants/RESULTS.md.
 """
 import json, os, re, shutil, subprocess, sys, tempfile, time
@@ -54,15 +54,16 @@ def run_mutant(m, tier, suite):
 
 def main():
     a = sys.argv[1:]
-    only = None; jobs = 4; tier = "quick"; suite = True
+    only = None; jobs = 4; tier = "quick"; suite = True; mfile = os.path.join(ROOT, "mutants", "mutants.json")
     i = 0
     while i < len(a):
         if a[i] == "--only": only = a[i+1]; i += 2
         elif a[i] == "--jobs": jobs = int(a[i+1]); i += 2
         elif a[i] == "--tier": tier = a[i+1]; i += 2
         elif a[i] == "--no-suite": suite = False; i += 1
+        elif a[i] == "--file": mfile = a[i+1]; i += 2
         else: raise SystemExit("bad arg " + a[i])
-    ms = json.load(open(os.path.join(ROOT, "mutants", "mutants.json")))
+    ms = json.load(open(mfile))
     if only:
         ms = [m for m in ms if re.search(only, m["id"])]
     with ThreadPoolExecutor(max_workers=jobs) as ex:
@@ -75,7 +76,7 @@ def main():
         print("%-34s %-4s %-12s rc=%s suite_ok=%s %ss  %s" % (m["id"], m["property"], r["status"], r.get("rc"), r.get("suite_ok"), r.get("wall"), (r.get("detail") or "").split("\n")[0][:150]))
         out.append("| %s | %s | %s | %s | %s | %s | %s | %s |" % (m["id"], m["property"], m.get("kind", "break"), m["what"],
                    {True: "passes", False: "FAILS (suite already catches it)", None: "n/a"}[r.get("suite_ok")], r.get("rc"), r["status"], r.get("wall")))
-    if not only:
+    if not only and mfile.endswith("mutants/mutants.json"):
         open(os.path.join(ROOT, "mutants", "RESULTS.md"), "w").write("# Sensitivity results (tools/mutants.py, tier %s)\n\n" % tier + "\n".join(out) + "\n")
     print("%d mutants, %d not as expected" % (len(res), bad))
     sys.exit(1 if bad else 0)
